@@ -9,6 +9,8 @@ is recomputed from the graph roots are all `Choices` draws.
 from __future__ import annotations
 
 import hashlib
+import os
+import sys
 import re
 import threading
 from dataclasses import dataclass, field
@@ -35,6 +37,17 @@ def _keyparts(key):
     return _strip(key), ()
 
 
+_DEBUG_CANON = bool(os.environ.get("VERIF_DEBUG_CANON"))
+
+
+def _array_sig(a) -> str:
+    """shape, dtype and -- for exact dtypes only -- content.  Floating-point content is left out of task identities: arrays
+    produced under FFTW_MEASURE / PATIENT plans (chosen by timing) differ in their last bits from process to process."""
+    if a.dtype.kind in "fc":
+        return f"{a.shape}{a.dtype}"
+    return f"{a.shape}{a.dtype}" + hashlib.sha1(np.ascontiguousarray(a).view(np.uint8).tobytes()).hexdigest()[:12]
+
+
 def literal_sig(obj, depth=12):
     """deterministic structural fingerprint of what is embedded in a task (args, kwargs, partials, small objects);
     independent of memory addresses, uuid/hash tokens and set/dict iteration order"""
@@ -51,7 +64,7 @@ def literal_sig(obj, depth=12):
     if isinstance(obj, np.ndarray):
         if obj.dtype == object:
             return "O[" + ",".join(literal_sig(x, depth - 1) for x in obj.ravel()[:16]) + "]"
-        return "nd:" + str(obj.shape) + hashlib.sha1(np.ascontiguousarray(obj).view(np.uint8).tobytes()).hexdigest()[:12]
+        return "nd:" + _array_sig(obj)
     if isinstance(obj, np.generic):
         return repr(obj.item())
     if isinstance(obj, TaskRef):
@@ -87,6 +100,59 @@ def literal_sig(obj, depth=12):
     if isinstance(d, dict) and not isinstance(obj, type):
         return type(obj).__name__ + literal_sig(d, depth - 1)
     return type(obj).__name__
+
+
+def embedded_instances(node, depth=9, cap=20000) -> dict:
+    """{id: object} of the class instances (objects with a __dict__) reachable from what is embedded in a task: arguments,
+    keyword arguments, partials, fused sub-graphs, object arrays"""
+    import functools
+
+    from dask._task_spec import DataNode, Task
+
+    out: dict = {}
+    seen: set = set()
+    stack = [(node, depth)]
+    while stack and len(seen) < cap:
+        o, d = stack.pop()
+        if o is None or isinstance(o, (bool, int, float, complex, str, bytes, type)) or id(o) in seen:
+            continue
+        seen.add(id(o))
+        if d <= 0:
+            continue
+        if isinstance(o, Task):
+            stack.extend((x, d - 1) for x in (o.func, o.args, o.kwargs))
+        elif isinstance(o, DataNode):
+            stack.append((o.value, d - 1))
+        elif isinstance(o, functools.partial):
+            stack.extend((x, d - 1) for x in (o.func, o.args, o.keywords))
+        elif isinstance(o, (list, tuple, set, frozenset)):
+            stack.extend((x, d - 1) for x in o)
+        elif isinstance(o, dict):
+            stack.extend((x, d - 1) for x in o.values())
+        elif isinstance(o, np.ndarray):
+            if o.dtype == object and o.size <= 256:
+                stack.extend((x, d - 1) for x in o.ravel())
+        else:
+            dd = getattr(o, "__dict__", None)
+            if isinstance(dd, dict) and not callable(o):
+                out[id(o)] = o
+                stack.extend((x, d - 1) for x in dd.values())
+    return out
+
+
+def shared_instances(g) -> dict:
+    """instances embedded in at least two tasks of the graph: what concurrently running blocks really share"""
+    count: dict = {}
+    objs: dict = {}
+    for k, node in g.items():
+        try:
+            emb = embedded_instances(node)
+        except Exception:  # noqa: BLE001 - best effort
+            continue
+        for i, o in emb.items():
+            count[i] = count.get(i, 0) + 1
+            objs[i] = o
+    return {i: objs[i] for i, c in count.items() if c >= 2}
 
 
 def fingerprint(obj, depth=3) -> str:
@@ -130,13 +196,16 @@ class SimConfig:
     qlo: int = 1
     qhi: int = 60
     whi: int = 0                # > 0: write-directed pre-emption, a quantum also ends at the k-th shared-write boundary, k = WQ[0..whi)
+    park_global: bool = False   # park targets are stores into module-level objects only
+    park_shared: bool = False   # park targets are stores whose `self` is an instance embedded in >= 2 tasks of the graph (or global)
+    park_at: int | None = None  # delay one task at one store: index of the store boundary (see Interleaver.park_at)
     qlog: bool = False          # quanta drawn log-uniformly from 1, 2, 4 .. <= qhi instead of uniformly from qlo..qhi
     step_cap: int = 4000
     trace_root: str = "/repo/abtem/"
 
     def describe(self):
         return {k: getattr(self, k) for k in ("workers", "reorder", "release", "recompute_p", "monitor_inputs",
-                                              "dup_p", "crash_p", "qlo", "qhi", "whi", "qlog")}
+                                              "dup_p", "crash_p", "qlo", "qhi", "whi", "qlog", "park_at", "park_global", "park_shared")}
 
 
 @dataclass
@@ -148,6 +217,10 @@ class SimStats:
     nonfirst_picks: int = 0
     switches: int = 0
     write_preemptions: int = 0
+    holds: int = 0
+    parks: int = 0
+    shared_instances: int = 0
+    park_candidates: int = 0     # store boundaries (before + after) the busiest task offered as park targets
     concurrent_max: int = 0
     recomputes: int = 0
     recomputed_tasks: int = 0
@@ -220,7 +293,7 @@ class SimScheduler:
             if isinstance(node, DataNode):
                 v = node.value
                 if isinstance(v, np.ndarray) and v.dtype != object:
-                    extra = hashlib.sha1(np.ascontiguousarray(v).view(np.uint8).tobytes()).hexdigest() + str(v.shape)
+                    extra = _array_sig(v)
                 else:
                     try:
                         extra = literal_sig(v, 8)[:2000]
@@ -232,6 +305,8 @@ class SimScheduler:
                 except Exception:  # noqa: BLE001 - fingerprinting is best effort
                     extra = "?"
             base[k] = repr((name, idx, type(node).__name__, extra))
+            if _DEBUG_CANON:
+                print("CANON", base[k], (literal_sig(node) if isinstance(node, Task) else "")[:6000], file=sys.stderr)
         # colour refinement (Weisfeiler-Lehman) over dependencies *and* dependents until the partition is stable:
         # tasks that keep the same colour are interchangeable (automorphic for all practical purposes)
         col = {k: hashlib.sha1(base[k].encode()).hexdigest()[:16] for k in topo}
@@ -353,8 +428,19 @@ class SimScheduler:
         ready: list = []
         trivial: list = [k for k in g if waiting[k] == 0]
 
+        shared_live = None
+        if workers > 1 and cfg.park_at is not None and cfg.park_shared:
+            # instances held by >= 2 tasks: embedded in two tasks, or part of a result that two tasks consume
+            shared_live = shared_instances(g)
+
         def finish(k, value):
             cache[k] = value
+            if shared_live is not None and len(set(dependents[k])) >= 2:
+                try:
+                    shared_live.update(embedded_instances(value, depth=7))
+                except Exception:  # noqa: BLE001 - best effort
+                    pass
+                st.shared_instances = max(st.shared_instances, len(shared_live))
             for c in set(dependents[k]):
                 waiting[c] -= 1
                 if waiting[c] == 0:
@@ -427,8 +513,14 @@ class SimScheduler:
                 finish(k, value)
                 drain()
         else:
-            wl = shared_write_lines(cfg.trace_root) if cfg.whi > 0 else None
-            il = Interleaver(ch, cfg.trace_root, cfg.qlo, cfg.qhi, self.log, st.__dict__, write_lines=wl, whi=cfg.whi, qlog=cfg.qlog)
+            wl = (shared_write_lines(cfg.trace_root, only_global=cfg.park_global and cfg.park_at is not None)
+                  if (cfg.whi > 0 or cfg.park_at is not None) else None)
+            shared = shared_live
+            if shared is not None:
+                st.shared_instances = max(st.shared_instances, len(shared))
+                gl = shared_write_lines(cfg.trace_root, only_global=True)
+            il = Interleaver(ch, cfg.trace_root, cfg.qlo, cfg.qhi, self.log, st.__dict__, write_lines=wl, whi=cfg.whi, qlog=cfg.qlog,
+                             park_at=cfg.park_at, shared=shared, global_lines=gl if shared is not None else None)
             running: dict = {}
             failure = None
             while ready or running:
@@ -457,6 +549,8 @@ class SimScheduler:
                         drain()
                 if failure is not None and not running:
                     break
+            if il.park_at is not None:
+                st.park_candidates = max(st.park_candidates, max((2 * vt.nb for vt in il.threads), default=0))
             if failure is not None:
                 raise failure
         left = [k for k in g if waiting[k] > 0]
